@@ -723,3 +723,194 @@ Proof.
   rewrite H1. destruct rest as [|c' rest']; auto.
   apply IH. intros k Hk Hk0. rewrite <- app_assoc. apply (H (S k)); simpl in *; lia.
 Qed.
+
+(* creating exactly one new leaf directory below an existing chain of directories *)
+Lemma makedirs_from_leaf : forall rest f base n,
+  (forall k, (1 <= k <= length rest)%nat -> get f (base ++ firstn k rest) = Some Dir) ->
+  get f (base ++ rest ++ [n]) = None ->
+  makedirs_from true f base (rest ++ [n]) = FOk ((base ++ rest ++ [n], Dir) :: f).
+Proof.
+  induction rest as [|c rest IH]; intros f base n Hd Hn; simpl.
+  - simpl in Hn. rewrite Hn. reflexivity.
+  - assert (H1 : get f (base ++ [c]) = Some Dir) by (apply (Hd 1%nat); simpl; lia).
+    rewrite H1.
+    destruct (rest ++ [n]) as [|x r] eqn:E; [destruct rest; discriminate|]. rewrite <- E.
+    replace (base ++ c :: rest ++ [n]) with ((base ++ [c]) ++ rest ++ [n]) by (rewrite <- app_assoc; reflexivity).
+    apply IH.
+    + intros k Hk. rewrite <- app_assoc. apply (Hd (S k)). simpl. lia.
+    + rewrite <- app_assoc. exact Hn.
+Qed.
+
+Lemma makedirs_leaf : forall f p n,
+  (forall k, (k <= length p)%nat -> get f (firstn k p) = Some Dir) ->
+  get f (p ++ [n]) = None ->
+  makedirs f (p ++ [n]) = FOk ((p ++ [n], Dir) :: f).
+Proof.
+  intros f p n Hd Hn. unfold makedirs. apply (makedirs_from_leaf p f [] n); auto.
+  intros k Hk. simpl. apply Hd. lia.
+Qed.
+
+Lemma get_cons_entry : forall f p n q, p <> [] ->
+  get ((p, n) :: f) q = if path_eqb q p then Some n else get f q.
+Proof.
+  intros f p n q Hp. destruct q as [|x q]; simpl.
+  - destruct p; [contradiction|reflexivity].
+  - reflexivity.
+Qed.
+
+(* ------------------------------------------------------------------ more facts used by the workspace layer *)
+Lemma has_children_get : forall f p,
+  has_children f p = true <-> exists q n, below p q = true /\ get f q = Some n.
+Proof.
+  intros f p. rewrite has_children_spec. split.
+  - intros [q [Hb Hin]]. apply In_keys_lookup in Hin. destruct Hin as [n Hn].
+    exists q, n. split; auto. apply below_spec in Hb. destruct Hb as [x [r ->]].
+    rewrite get_app_cons. exact Hn.
+  - intros [q [n [Hb Hg]]]. exists q. split; auto. apply In_keys_lookup.
+    apply below_spec in Hb. destruct Hb as [x [r ->]]. rewrite get_app_cons in Hg. eauto.
+Qed.
+
+(* two different names in one directory are incomparable *)
+Lemma sibling_not_under : forall (p : path) a b, a <> b -> under (p ++ [a]) (p ++ [b]) = false.
+Proof.
+  intros p a b Hab. destruct (under (p ++ [a]) (p ++ [b])) eqn:E; auto.
+  apply under_spec in E. destruct E as [r E]. rewrite <- app_assoc in E. apply app_inv_head in E.
+  simpl in E. inversion E. congruence.
+Qed.
+
+Lemma sibling_not_under_deep : forall (p : path) a b r, a <> b -> under (p ++ [a]) (p ++ b :: r) = false.
+Proof.
+  intros p a b r Hab. destruct (under (p ++ [a]) (p ++ b :: r)) eqn:E; auto.
+  apply under_spec in E. destruct E as [r' E]. rewrite <- app_assoc in E. apply app_inv_head in E.
+  simpl in E. inversion E. congruence.
+Qed.
+
+Lemma under_neq : forall p q, under p q = false -> q <> p.
+Proof. intros p q H E. subst. rewrite under_refl in H. discriminate. Qed.
+
+(* the conditions under which os.replace of a directory succeeds *)
+Lemma rename_dir_ok : forall f a b,
+  get f a = Some Dir -> get f (parent b) = Some Dir -> a <> b ->
+  under a b = false -> under b a = false ->
+  (get f b = None \/ get f b = Some Dir) -> has_children f b = false ->
+  rename f a b = FOk (move_tree a b (del_under b f)).
+Proof.
+  intros f a b Ha Hp Hab Hu1 Hu2 Hb Hc. unfold rename. rewrite Ha, Hp.
+  apply path_eqb_neq in Hab. rewrite Hab.
+  destruct Hb as [Hb|Hb]; rewrite Hb, Hu1, Hu2, Hc; reflexivity.
+Qed.
+
+(* makedirs with exist_ok=False on a path that exists *)
+Lemma makedirs_from_exists : forall rest f base n x,
+  (forall k, (1 <= k <= length rest)%nat -> get f (base ++ firstn k rest) = Some Dir) ->
+  get f (base ++ rest ++ [n]) = Some x ->
+  makedirs_from false f base (rest ++ [n]) = FErr EEXIST.
+Proof.
+  induction rest as [|c rest IH]; intros f base n x Hd Hn; simpl.
+  - simpl in Hn. rewrite Hn. destruct x; reflexivity.
+  - assert (H1 : get f (base ++ [c]) = Some Dir) by (apply (Hd 1%nat); simpl; lia).
+    rewrite H1.
+    destruct (rest ++ [n]) as [|y r] eqn:E; [destruct rest; discriminate|]. rewrite <- E.
+    assert (Hn' : get f ((base ++ [c]) ++ rest ++ [n]) = Some x) by (rewrite <- app_assoc; exact Hn).
+    eapply IH; [|exact Hn'].
+    intros k Hk. rewrite <- app_assoc. apply (Hd (S k)). simpl. lia.
+Qed.
+
+Lemma makedirs_from_leaf_new : forall rest f base n,
+  (forall k, (1 <= k <= length rest)%nat -> get f (base ++ firstn k rest) = Some Dir) ->
+  get f (base ++ rest ++ [n]) = None ->
+  makedirs_from false f base (rest ++ [n]) = FOk ((base ++ rest ++ [n], Dir) :: f).
+Proof.
+  induction rest as [|c rest IH]; intros f base n Hd Hn; simpl.
+  - simpl in Hn. rewrite Hn. reflexivity.
+  - assert (H1 : get f (base ++ [c]) = Some Dir) by (apply (Hd 1%nat); simpl; lia).
+    rewrite H1.
+    destruct (rest ++ [n]) as [|x r] eqn:E; [destruct rest; discriminate|]. rewrite <- E.
+    replace (base ++ c :: rest ++ [n]) with ((base ++ [c]) ++ rest ++ [n]) by (rewrite <- app_assoc; reflexivity).
+    apply IH.
+    + intros k Hk. rewrite <- app_assoc. apply (Hd (S k)). simpl. lia.
+    + rewrite <- app_assoc. exact Hn.
+Qed.
+
+(* shutil.copytree: fails with EEXIST whenever the destination exists (even as an empty directory) *)
+Lemma copytree_exists : forall f a p n x,
+  get f a = Some Dir -> under a (p ++ [n]) = false ->
+  (forall k, (k <= length p)%nat -> get f (firstn k p) = Some Dir) ->
+  get f (p ++ [n]) = Some x ->
+  copytree f a (p ++ [n]) = FErr EEXIST.
+Proof.
+  intros f a p n x Ha Hu Hd Hx. unfold copytree. rewrite Ha, Hu. unfold makedirs_new.
+  rewrite (makedirs_from_exists p f [] n x); auto. intros k Hk. simpl. apply Hd. lia.
+Qed.
+
+Lemma copytree_missing : forall f a b, get f a = None -> copytree f a b = FErr ENOENT.
+Proof. intros f a b H. unfold copytree. rewrite H. reflexivity. Qed.
+
+(* keys of a moved list all lie under the destination *)
+Lemma lookup_move_tree_all_src : forall a b q g,
+  (forall k, In k (map fst g) -> under a k = true) -> under b q = false ->
+  lookup q (move_tree a b g) = None.
+Proof.
+  intros a b q g Hall Hq. induction g as [|[k n] g IH]; simpl; auto.
+  assert (Hk : under a k = true) by (apply Hall; simpl; auto).
+  unfold rekey at 1. simpl. unfold under in Hk. destruct (strip a k) as [r|] eqn:E; [|discriminate]. simpl.
+  assert (E1 : path_eqb q (b ++ r) = false) by (apply path_eqb_neq; apply under_false_app; auto).
+  rewrite E1. apply IH. intros k' Hk'. apply Hall. simpl. auto.
+Qed.
+
+(* copytree into a fresh leaf of an existing directory chain: the copy is exact, everything else untouched *)
+Lemma get_copytree : forall f a p n f' q,
+  get f a = Some Dir -> under a (p ++ [n]) = false -> under (p ++ [n]) a = false ->
+  (forall k, (k <= length p)%nat -> get f (firstn k p) = Some Dir) ->
+  get f (p ++ [n]) = None ->
+  copytree f a (p ++ [n]) = FOk f' ->
+  get f' q =
+    match strip (p ++ [n]) q with
+    | Some [] => Some Dir
+    | Some (x :: r) => match get f (a ++ x :: r) with Some v => Some v | None => get f q end
+    | None => get f q
+    end.
+Proof.
+  intros f a p n f' q Ha Hu1 Hu2 Hd Hn H. set (b := p ++ [n]) in *.
+  unfold copytree in H. rewrite Ha, Hu1 in H. unfold makedirs_new in H. fold b in H.
+  assert (Hmk : makedirs_from false f [] b = FOk ((b, Dir) :: f)).
+  { unfold b. apply (makedirs_from_leaf_new p f [] n); auto. intros k Hk. simpl. apply Hd. lia. }
+  rewrite Hmk in H. inversion H; subst f'. clear H.
+  assert (Hb0 : b <> []) by (unfold b; destruct p; discriminate).
+  set (g := filter (fun e => below a (fst e)) f).
+  assert (Hg : forall k, In k (map fst g) -> under a k = true /\ under b k = false).
+  { intros k Hk. apply in_map_iff in Hk. destruct Hk as [[k' m] [<- Hin]]. apply filter_In in Hin.
+    destruct Hin as [_ Hbel]. simpl in *. split; [apply below_under; exact Hbel|].
+    destruct (under b k') eqn:E; auto.
+    destruct (under_comparable a b k' (below_under _ _ Hbel) E); congruence. }
+  assert (Hclean : forall k, In k (map fst g) -> under b k = false) by (intros k Hk; apply Hg; exact Hk).
+  assert (Hsrc : forall k, In k (map fst g) -> under a k = true) by (intros k Hk; apply Hg; exact Hk).
+  assert (Hlg : forall r, lookup (a ++ r) g = match r with [] => None | _ => lookup (a ++ r) f end).
+  { intro r. unfold g. rewrite (lookup_filter (fun k => below a k)).
+    destruct r as [|x r].
+    - assert (Hb : below a (a ++ []) = false).
+      { destruct (below a (a ++ [])) eqn:Eb; auto. apply below_spec in Eb. destruct Eb as [y [r' Eb]].
+        apply app_inv_head in Eb. discriminate. }
+      rewrite Hb. reflexivity.
+    - assert (Hb : below a (a ++ x :: r) = true) by (apply below_spec; eauto). rewrite Hb. reflexivity. }
+  destruct q as [|x0 q0].
+  { destruct (strip b []) as [r|] eqn:E; [|reflexivity].
+    apply strip_spec in E. destruct b; [contradiction|discriminate]. }
+  rewrite get_cons_path, lookup_app. set (q := x0 :: q0).
+  destruct (strip b q) as [[|x r]|] eqn:E.
+  - apply strip_spec in E. rewrite E.
+    rewrite (lookup_move_tree_dst a b [] g Hclean), Hlg. rewrite app_nil_r. simpl.
+    rewrite path_eqb_refl. reflexivity.
+  - apply strip_spec in E. rewrite E.
+    rewrite (lookup_move_tree_dst a b (x :: r) g Hclean), Hlg.
+    rewrite <- (get_app_cons f a x r).
+    destruct (get f (a ++ x :: r)) as [v|]; [reflexivity|].
+    simpl. assert (Hne : path_eqb (b ++ x :: r) b = false).
+    { apply path_eqb_neq. intro H. rewrite <- (app_nil_r b) in H at 2. apply app_inv_head in H. discriminate. }
+    rewrite Hne. rewrite get_app_cons. reflexivity.
+  - assert (Hq : under b q = false) by (unfold under; rewrite E; reflexivity).
+    rewrite (lookup_move_tree_all_src a b q g Hsrc Hq). simpl.
+    assert (Hne : path_eqb q b = false).
+    { apply path_eqb_neq. intro H. rewrite H, under_refl in Hq. discriminate. }
+    rewrite Hne. reflexivity.
+Qed.
